@@ -140,6 +140,8 @@ def check(run):
                     base = t.value if isinstance(t, ast.Subscript) else t
                     if dotted(base) in (A, B):
                         hit = n
+            if hit is not None and ix.expanded_helper(f):
+                continue        # a new helper: its body was expanded into (and is judged at) its callers
             if hit is not None:
                 ok = name in ("__init__", "clearAllNameAddr", "addNameAddr", "remNameAddr", "changeAddrAtName", "changeNameAtAddr")
                 run.ob("C27.R2", "%s:writes-maps:%s" % (f.fq, keytext(f, hit)), ok, run.site(f, hit), "" if ok else "the registry maps are written outside the mutators")
